@@ -122,6 +122,29 @@ pub fn c04(rng: &mut Rng, tier: &str, idx: usize) -> Case {
         }
     }
     c.op(format!("sim 0 {} g", name("nosuchmethod")));
+    if rng.chance(1, 3) {
+        // a second ontology with the same ids, other links and annotations, scored by the same
+        // similarity objects: no score is carried over from one ontology to the next
+        let mut f2 = f.clone();
+        if f2.edges.len() >= 2 {
+            let i = rng.below(f2.edges.len() as u64) as usize;
+            let e = f2.edges.remove(i);
+            if e == (1, 118) {
+                f2.edges.push(e);
+            }
+        }
+        for k in 0..3 {
+            if !f2.links[k].is_empty() && rng.chance(1, 2) {
+                let i = rng.below(f2.links[k].len() as u64) as usize;
+                f2.links[k].remove(i);
+            }
+        }
+        facts_to_prog(rng, &f2, &ProgOpts { shuffle: true, failing_permille: 0, build_defaults: with_roots, slot: 1 }, &mut c);
+        for a in 0..8 {
+            c.op(format!("sim 1 {} {}", name(ALG_NAMES[a][0]), KINDS[rng.below(3) as usize]));
+        }
+        c.stat("second_ontology_same_ids", 1);
+    }
     c.nontrivial = f.terms.len() >= 3 && inh > 0 && (multi > 0 || roots > 1 || nflags > 0) && f.recs.iter().filter(|r| r.len() >= 2).count() >= 2;
     c
 }
